@@ -73,7 +73,8 @@ func (ev *c10Eval) callBody(ft *ast.FuncType, body *ast.BlockStmt, env c10Env, a
 				o := ev.info.Defs[nm]
 				if o != nil && k < len(args) && args[k].K == c10VSlice {
 					for i := range outs {
-						if fin, ok := outs[i].Final[o]; ok && outs[i].Unsupported == "" && !c10SameSlice(fin, args[k]) {
+						// an element store keeps the length; re-binding the parameter (buf = append(buf, ...)) is local
+						if fin, ok := outs[i].Final[o]; ok && outs[i].Unsupported == "" && fin.K == c10VSlice && len(fin.Args) == len(args[k].Args) && !c10SameSlice(fin, args[k]) {
 							outs[i] = c10Outcome{Unsupported: "a callee stores into the slice parameter " + nm.Name, Pos: body.Pos(), Conds: outs[i].Conds}
 						}
 					}
